@@ -105,22 +105,38 @@ def pSpec : P SectionSpec := do
   let kind ← pKind
   pure ⟨name, req, kind⟩
 
+def specOf (w : String) : DecSpec :=
+  match w.toList with
+  | ['s'] => .str
+  | ['b'] => .bool
+  | 'i' :: r => match (String.ofList r).toNat? with | some b => .int b | none => .oracle
+  | 'u' :: r => match (String.ofList r).toNat? with | some b => .uint b | none => .oracle
+  | _ => .oracle
+
 structure SchemaInfo where
   S : Schema
   zeros : List (List Char)
+  specs : List DecSpec
   oracle : List (Nat × List Char × Option (List Char))
 
 def pSchema : P SchemaInfo := do
-  expect "K"; let nk ← nat; let zeros ← times nk hexs
+  expect "K"; let nk ← nat; let zs ← times nk (do let z ← hexs; let w ← word; pure (z, specOf w))
+  let zeros := zs.map (·.1)
+  let dspecs := zs.map (·.2)
   expect "T"; let nt ← nat; let structs ← times nt pStruct
   expect "P"; let np ← nat; let specs ← times np pSpec
   expect "O"; let oracle ← pOracle
-  pure ⟨⟨structs, specs⟩, zeros, oracle⟩
+  pure ⟨⟨structs, specs⟩, zeros, dspecs, oracle⟩
 
-def decOf (tbl : List (Nat × List Char × Option (List Char))) : Dec := fun k v =>
-  match tbl.find? (fun e => e.1 = k ∧ e.2.1 = v) with
-  | some e => e.2.2
-  | none => none
+/-- the decoder the model runs with: the SPECIFICATION for strings, bools and integers (ranged to
+the field's Go type), the harness's oracle answers (real function) for the rest -/
+def decOf (dspecs : List DecSpec) (tbl : List (Nat × List Char × Option (List Char))) : Dec := fun k v =>
+  match (dspecs[k]?).bind (fun sp => decodeSpec sp v) with
+  | some r => r
+  | none =>
+    match tbl.find? (fun e => e.1 = k ∧ e.2.1 = v) with
+    | some e => e.2.2
+    | none => none
 
 /-! ### canonical print of the typed configuration -/
 
@@ -187,7 +203,9 @@ def fsOf (files : List (List Char × FileInfo)) (globs : List (List Char × Opti
   { stat := fun p => (files.find? (fun e => e.1 = p)).map (·.2)
     glob := fun pat => match globs.find? (fun e => e.1 = pat) with
       | some e => e.2
-      | none => some [['<', 'g', 'l', 'o', 'b', '-', 'm', 'i', 's', 's', '>']] }
+      -- a pattern the harness did not pre-compute: answer a `.dae` path that cannot be stat-ed, so
+      -- that a model-side path bug surfaces as `statErr` instead of silently matching nothing
+      | none => some ["<glob-miss>.dae".toList] }
 
 def rulesOfItems (items : List AItem) : List (List Fn × Fn) :=
   items.filterMap fun | .rule fs o => some (fs, o) | _ => none
@@ -219,7 +237,11 @@ def handle (st : St) (line : String) : St × String :=
     | some ss => (st, "ok " ++ secsStr ss)
   | "schema" :: rest =>
     match runP pSchema rest with
-    | some si => ({ st with schema := some si }, "schema ok")
+    | some si =>
+      -- the hypotheses `hnames` / `hfnd` of `defaults_applied`: distinct section names, distinct keys
+      let nodup := fun (l : List (List Char)) => l.eraseDups.length == l.length
+      let ok := nodup (si.S.specs.map (·.name)) && si.S.structs.all (fun sd => nodup (sd.fields.map (·.key)))
+      ({ st with schema := some si }, if ok then "schema ok" else "schema NOT-NODUP (section names or field keys repeat)")
     | none => (st, "bad-op")
   | "c" :: text :: rest =>
     match st.schema, unhex text, runP pOracle rest with
@@ -227,9 +249,18 @@ def handle (st : St) (line : String) : St × String :=
       match parse st.K cs with
       | none => (st, "err:parse")
       | some ss =>
-        match configNew si.S (decOf (tbl ++ si.oracle)) 64 ss with
+        match configNew si.S (decOf si.specs (tbl ++ si.oracle)) 64 ss with
         | .error (e, sec) => (st, "err:" ++ cerrStr e ++ (if sec.isEmpty then "" else "@" ++ String.ofList sec))
         | .ok store => (st, "ok " ++ storeStr si.zeros store)
+    | _, _, _ => (st, "bad-op")
+  | ["d", k, v] =>
+    -- FuzzyDecode of one value: the specification where there is one, "oracle" otherwise
+    match st.schema, k.toNat?, unhex v with
+    | some si, some k, some v =>
+      match (si.specs[k]?).bind (fun sp => decodeSpec sp v) with
+      | some (some c) => (st, "ok " ++ esc c)
+      | some none => (st, "err")
+      | none => (st, "oracle")
     | _, _, _ => (st, "bad-op")
   | ["path", a, b] =>
     match unhex a, unhex b with
@@ -244,10 +275,15 @@ def handle (st : St) (line : String) : St × String :=
       pure (files, globs)
     match unhex entry, runP p rest with
     | some entry, some (files, globs) =>
+      -- regular files handed to os.Open (the harness observes the real opens with inotify, which
+      -- it filters to non-directories)
+      let openedStr := fun (ms : MState) =>
+        " opened=" ++ ",".intercalate (sortStrings ((ms.opened.filter fun p =>
+          match files.find? (fun e => e.1 = p) with | some e => !e.2.isDir | none => true).map esc))
       match merge st.K (fsOf files globs) (files.length + 2) entry with
-      | (_, .error e) => (st, "err:" ++ merrStr e)
+      | (ms, .error e) => (st, "err:" ++ merrStr e ++ openedStr ms)
       | (ms, .ok m) =>
-        (st, "ok " ++ smapStr m ++ " entries=" ++ ",".intercalate (sortStrings (ms.visited.map esc)))
+        (st, "ok " ++ smapStr m ++ " entries=" ++ ",".intercalate (sortStrings (ms.visited.map esc)) ++ openedStr ms)
     | _, _ => (st, "bad-op")
   | ["z", which, maxLen, text] =>
     match maxLen.toNat?, unhex text with
@@ -263,6 +299,7 @@ def handle (st : St) (line : String) : St × String :=
         | .error .unknownFunction => (st, "err:unknownFunction")
         | .error .noParams => (st, "err:noParams")
     | _, _ => (st, "bad-op")
+  | ["k", _, _] => (st, "done")
   | ["n", _] => (st, "done")
   | ["n"] => (st, "done")
   | _ => (st, "bad-op")
